@@ -276,6 +276,15 @@ Definition mk_asg (i : inst) (l : list (Z * Z * list Z * list Z)) : option assig
           match lookup_cand i cid with Some c => Some ({| ch_a := (c, idx); ch_keep := k; ch_add := n |} :: t) | None => None end
       | _, None => None
       end) (Some []) l.
+(* decidable premise of the noise-free clause (MinorNoiseFreeProofs.minor_noise_free_b), evaluated by the harness on every
+   noise-free case: the planted assignment is admissible and scores 0, the weights are positive *)
+Definition noise_free_b (c : consts) (i : inst) (l : list (Z * Z * list Z * list Z)) : bool :=
+  inst_wf i && Qltb 0%Q (c_minor_tie_den c) && Qltb 0%Q (c_minor_vnewor_div c) && Qltb 0%Q (i_miss i) && Qltb 0%Q (i_add i) && Qleb 0%Q (i_phase i) &&
+  match mk_asg i l with
+  | Some b => admissible i b && match score c i true b with Some q => Qeqb q 0%Q | None => false end
+  | None => false
+  end.
+
 Definition o_choice (ch : choice) : out :=
   OL [OZ (c_id (fst (ch_a ch))); OZ (snd (ch_a ch)); OL (map OZ (ch_keep ch)); OL (map OZ (ch_add ch))].
 Definition o_asg (a : assignment) : out := o_list o_choice a.
